@@ -966,4 +966,21 @@ example :
   simp [GridTops.cross, GridTops.vsub, GridTops.cornerPt, c]
   norm_num
 
+/-- **`isValidCellGeomtry`** (any linear order, any `abs`, any threshold / separation): the answer
+is `true` exactly when every corner coordinate is below the threshold in absolute value and at
+least one of the four vertical edges is longer than the minimum separation. -/
+theorem cell_validity_rule {K : Type} [LinearOrder K] [Sub K] (abs : K → K) (thr minSep : K) (c : Corners K) :
+    GridTops.isValidCellGeometry abs thr minSep c = true ↔
+      ((∀ n, n < 8 → abs (c.X n) < thr ∧ abs (c.Y n) < thr ∧ abs (c.Z n) < thr) ∧
+       ∃ n, n < 4 ∧ minSep < c.Z (n + 4) - c.Z n) :=
+  GridTops.isValidCellGeometry_iff abs thr minSep c
+
+/-- Non-vacuity (ℤ): a wedge cell with one open edge is valid, the fully pinched one is not. -/
+example :
+    GridTops.isValidCellGeometry (fun x : Int => if x < 0 then -x else x) 1000 1
+      ⟨fun n => (n % 2 : Nat), fun n => (n / 2 % 2 : Nat), fun n => if n = 7 then 12 else 10⟩ = true ∧
+    GridTops.isValidCellGeometry (fun x : Int => if x < 0 then -x else x) 1000 1
+      ⟨fun n => (n % 2 : Nat), fun n => (n / 2 % 2 : Nat), fun _ => 10⟩ = false := by
+  decide
+
 end OpmVerif.Props.C13
